@@ -138,6 +138,8 @@ class Party(sut.BaseAlgorithm):
         self.st = {s["id"]: s for s in sc["network"]["stations"]}
         self.order = [s["id"] for s in sc["network"]["stations"]]
         self.last_t = last_event_time(sc)
+        from .world import event_times
+        self.first_t = min(event_times(sc).keys())
 
     def register_interface(self, interface):
         self._interface = interface
@@ -154,10 +156,15 @@ class Party(sut.BaseAlgorithm):
 
     def script(self, t, force_len=None, nonempty=False):
         P = self.sc["party"]
+        shift = P.get("time_shift", 0)
+        if P.get("quiet_prefix") and t - shift < self.first_t - shift:
+            return {}
+        t0 = t
+        t = t - shift          # the script is keyed by unshifted time (C10 shift pairs)
         r = sub(self.sc["seed"], "script", t)
         if not nonempty and r.random() < P.get("empty_prob", 0):
             return {}
-        remaining = max(1, self.last_t - t + 1)
+        remaining = max(1, self.last_t - t0 + 1)
         mode = P.get("len_mode", "one")
         if mode == "mixed":
             mode = r.choice(["one", "few", "horizon"])
@@ -165,9 +172,9 @@ class Party(sut.BaseAlgorithm):
         if force_len is not None:
             L = force_len
         sm = P.get("subset_mode", "all")
-        ids = list(self.order)
+        ids = sorted(self.order)   # independent of registration order
         stoch = self.sc["network"]["kind"] == "stochastic"
-        occ0 = self.occupied(t) if not stoch else {i: None for i in ids}
+        occ0 = self.occupied(t0) if not stoch else {i: None for i in ids}
         if sm == "occupied":
             ids = [i for i in ids if i in occ0] or ids[:1]
         elif sm == "random":
@@ -180,7 +187,7 @@ class Party(sut.BaseAlgorithm):
             row = []
             for k in range(L):
                 v = valid_value(rv, self.st[i]["evse"])
-                if not P.get("vacant_pilots", True) and not stoch and i not in self.occupied(t + k):
+                if not P.get("vacant_pilots", True) and not stoch and i not in self.occupied(t0 + k):
                     v = 0
                 row.append(_cast(rv, v))
             out[i] = _container(rv, row)
